@@ -310,6 +310,7 @@ pub fn generate_soak(seed: u64) -> RunSpec {
         jumps: vec![],
         exit_list_first: false,
         env_plan: 0,
+        reuse_input_buffer: false,
     }
 }
 
@@ -851,5 +852,6 @@ pub fn generate(seed: u64, flavor: &str) -> RunSpec {
         } else {
             0
         },
+        reuse_input_buffer: rng.chance(50, 100),
     }
 }
